@@ -349,7 +349,7 @@ def ODD(number):
         return number
     tmp = math.ceil(abs(number))
     tmp = tmp if (tmp % 2) == 1 else tmp + 1
-    return tmp if number > 0 else -tmp
+    return tmp if number >= 0 else -tmp
 
 
 @dispatcher.register_for('EVEN')
